@@ -1,4 +1,4 @@
-import Unsized.PtrHonestM13b
+import Unsized.PtrHonestN5
 namespace Unsized.Ptr
 open Common Unsized Unsized.Text Unsized.Machine Unsized.PtrT Unsized.PtrM
 
@@ -100,18 +100,23 @@ theorem resolve_not_disc (p : List Step) : ∀ (s : Shape) (v : Val) (t : Shape)
       simp only [h1] at h
       exact ih t1 u1 t u (step_facts s v st t1 u1 g h1).1 (step_not_disc s v st t1 u1 g h1) h
 
-/-- The ops whose pointer-level effect is proved: every op except the three composite ones (`str_set`,
-`Set::insert_all`, `Map::insert_all`) and `UnsizedMap::insert` on a key the map already holds. -/
+/-- The ops whose pointer-level effect is proved: EVERY op of the op language on every node kind. The only
+condition comes from the C03 machine itself: for `UnsizedMap::insert` on a key the map already holds it replaces
+the cached element pointer only when its `start_ptr` is defined (`PtrM.startAddr` looks two struct levels deep),
+so that is required of the element shape. -/
 def Covered (sh : Shape) (u : Val) (op : Op) : Prop :=
-  simpleOp op = true ∧ ∀ kw e es k, sh = .umap kw e → u = .umap es →
-    (op = .uminsert k ∨ ∃ xs, op = .uminsertArr k xs) → Spec.hasUKey (rdLE k) es = false
+  ∀ kw e es k, sh = .umap kw e → u = .umap es →
+    (op = .uminsert k ∨ ∃ xs, op = .uminsertArr k xs) → Spec.hasUKey (rdLE k) es = true →
+    ∀ (x : Val) (B : Nat), ∃ a, startAddr (treeOf e x B) = some a
 
 /-- The side condition of one op (C01's `CmdOk` at node level): a successful model step stays inside the
-allocation, a failing one is not the registered "initialiser fails behind the resize" finding. -/
+allocation; a failing one is not the registered "initialiser fails behind the resize" finding, and a composite
+op (`str_set`, `Set/Map::insert_all`) does not fail half-way (the other registered finding) — it either
+succeeds or is rejected as inapplicable. -/
 def NodeOk (s : Shape) (v : Val) (π : List Step) (t : Shape) (u : Val) (op : Op) (orig : Nat) : Prop :=
   match Spec.applyNode t u op with
   | .ok (u', _) => (plug s v π (encode t u')).length ≤ orig + maxIncrease
-  | .error e => e ≠ .initFail
+  | .error e => e ≠ .initFail ∧ (simpleOp op = false → e = .bad)
 
 /-- `opAt` on any covered node. -/
 theorem opAt_hon {w : World} {s : Shape} {v : Val} (c : PCtx w .A s v) (π : List Step) (t : Shape) (u : Val)
@@ -120,18 +125,45 @@ theorem opAt_hon {w : World} {s : Shape} {v : Val} (c : PCtx w .A s v) (π : Lis
     (hcmd : NodeOk s v π t u op w.a.mem.orig) :
     StepRes w s v π t u op (opAt w .A ⟨s, π⟩ (tpath s v π) t op) := by
   have hnd := resolve_not_disc π s v t u c.good c.nd hres
+  by_cases hsimple : simpleOp op = true
+  case neg =>
+    have hs' : simpleOp op = false := by simpa using hsimple
+    refine opAt_hon_comp c π t u hres T hp hT op hs' ?_
+    unfold NodeOk at hcmd
+    unfold CompOk
+    cases hsp : Spec.applyNode t u op with
+    | ok r => rw [hsp] at hcmd; exact hcmd
+    | error e => rw [hsp] at hcmd; exact hcmd.2 hs'
+  have hcmd' : match Spec.applyNode t u op with
+      | .ok (u', _) => (plug s v π (encode t u')).length ≤ w.a.mem.orig + maxIncrease
+      | .error e => e ≠ .initFail := by
+    unfold NodeOk at hcmd
+    cases hsp : Spec.applyNode t u op with
+    | ok r => rw [hsp] at hcmd; exact hcmd
+    | error e => rw [hsp] at hcmd; exact hcmd.1
   by_cases hl : ∃ e, t = .ulist e
   · obtain ⟨e, rfl⟩ := hl
     have gt : Good (.ulist e) u := (Focus.sub ⟨c.good, hres, c.bytes⟩)
     obtain ⟨vs, rfl⟩ := good_ulist_val e u gt
-    exact opAt_hon_ulist c π e vs hres T hp hT op hcov.1 hcmd
+    exact opAt_hon_ulist c π e vs hres T hp hT op hsimple hcmd'
   · by_cases hm : ∃ kw e, t = .umap kw e
     · obtain ⟨kw, e, rfl⟩ := hm
       have gt : Good (.umap kw e) u := (Focus.sub ⟨c.good, hres, c.bytes⟩)
       obtain ⟨es, rfl⟩ := good_umap_val kw e u gt
       have F : Focus s v π (.umap kw e) (.umap es) w.a.mem := ⟨c.good, hres, c.bytes⟩
-      exact opAt_hon_umap c π kw e es hres T hp hT op hcov.1
-        (srcOf_of_nokey F c.calm op (fun k hk => hcov.2 kw e es k rfl rfl hk)) hcmd
-    · exact opAt_hon_plain c π t u hres T hp hT (fun e h => hl ⟨e, h⟩) (fun kw e h => hm ⟨kw, e, h⟩) hnd op hcov.1 hcmd
+      by_cases hex : ∃ k, (op = .uminsert k ∨ ∃ xs, op = .uminsertArr k xs) ∧ Spec.hasUKey (rdLE k) es = true
+      · obtain ⟨k, hk, hhas⟩ := hex
+        have hop : ∃ init, InsOp op k init := by
+          rcases hk with rfl | ⟨xs, rfl⟩
+          · exact ⟨.default, Or.inl ⟨rfl, rfl⟩⟩
+          · exact ⟨.array xs, Or.inr ⟨xs, rfl, rfl⟩⟩
+        obtain ⟨init, hop⟩ := hop
+        exact opAt_hon_umap_at c π kw e es hres T hp hT op hsimple k init hop hhas (hcov kw e es k rfl rfl hk hhas) hcmd'
+      · exact opAt_hon_umap c π kw e es hres T hp hT op hsimple
+          (srcOf_of_nokey F c.calm op (fun k hk => by
+            cases hh : Spec.hasUKey (rdLE k) es with
+            | false => rfl
+            | true => exact absurd ⟨k, hk, hh⟩ hex)) hcmd'
+    · exact opAt_hon_plain c π t u hres T hp hT (fun e h => hl ⟨e, h⟩) (fun kw e h => hm ⟨kw, e, h⟩) hnd op hsimple hcmd'
 
 end Unsized.Ptr
